@@ -87,3 +87,5 @@ def run(ctx):
     ctx.rule('C18-R4 DES building blocks equal FIPS 46-3 (shared with C02)')
     cmp_many(ctx, DES, [('subkey', CS.DES_SUBKEY), ('F', CS.DES_F), ('IP', CS.DES_IP), ('IPinv', CS.DES_IPINV), ('PC1', CS.DES_PC1),
                         ('PC2', CS.DES_PC2), ('E', CS.DES_E), ('P', CS.DES_P), ('S', CS.DES_S), ('DES.enc', CS.DES_ENC), ('DES.__init__', CS.DES_INIT)])
+
+    dependencies(ctx, ['crysp/bits.py', 'crysp/des.py', 'crysp/poly.py', 'crysp/wb.py'], 'C18')
